@@ -24,8 +24,9 @@ LABELS = ['g0', 'g1', 'g2', 'g3', 'g4', 'g5']
 SIGS = [np.array(x, dtype='u4') for x in ([1, 2, 3, 4], [1, 2, 3, 4], [3, 4, 5, 6, 7, 8], [100, 200], [], [2, 4, 6, 8, 100])]
 
 
-def sig_for(name):
-    return SIGS[NAMES.index(name)]
+def sig_for(name, shifted=False):
+    # the same listed name under the reference base directory (--rdir) is a different file, hence a different genome
+    return SIGS[(NAMES.index(name) + (1 if shifted else 0)) % len(SIGS)]
 
 
 def _dist_concrete(qsrc, rsrc, nq, nr, qp, rp):
@@ -77,7 +78,7 @@ def _dist_concrete(qsrc, rsrc, nq, nr, qp, rp):
         for f in files:
             p = str(f.path)
             match = [n for n in NAMES if p == n or p.endswith('/' + n)]
-            s_ = sig_for(max(match, key=len))
+            s_ = sig_for(max(match, key=len), shifted=p.startswith('other/base/'))
             out_.append(s_ if kspec == expected_spec else (s_ + 100000).astype('u4'))
         return SignatureList(out_, kspec, dtype=np.dtype('u4'))
 
@@ -101,7 +102,7 @@ def _dist_concrete(qsrc, rsrc, nq, nr, qp, rp):
     for i, qn in enumerate(qnames):
         cells = lines[1 + i].split(',')[1:]
         for j, rn in enumerate(rnames):
-            want = format(jaccarddist(sig_for(qn), sig_for(rn)), '0.4f')
+            want = format(jaccarddist(sig_for(qn), sig_for(rn, shifted=(rsrc == 1))), '0.4f')
             if cells[j] != want:
                 return False, f'cell ({qn},{rn}) is {cells[j]}, expected {want}'
             if rsrc == 4:
